@@ -346,3 +346,22 @@ reg("C18", gen=gen_skel, obligation_files=["Props/C18.v", "Gen/Skel.v"],
     level_text="dial_targets_resolved, cache_preserved, every_address_possible, connect_to_rotation (any window of consecutive dials spreads floor/ceil over the replacements) and dial_lockset_sound are proved in Coq; dns_caching_dial_lockset / connect_to_dial_lockset / resolver_rotation_atomic are re-proved by reflection on skeletons regenerated from the current source on every run. Tie: translator (T2) + dial histories through a real DNS lookup path judged by a checker defined in Coq.",
     technique="Coq proofs over a functional dial model and a lockset checker + reflection on regenerated skeletons; recorded dial histories",
     timeout={"quick": 600, "thorough": 3000})
+
+reg("C17",
+    rule="LTTB: every (count, threshold) with count <= 40 and threshold <= 42 (quick) / 66, 68 (thorough) through the exported "
+         "lttb.Downsample with a recording iterator, plus random counts 100..5000 with thresholds {0,1,2,3,4,count-1,count,count+1,random}; "
+         "plot: 1..3 attacks of 1..60 (every 8th 300..1000) results with sequence numbers 0..n-1, timestamp gaps from 0 to two minutes, "
+         "OK/ERROR mix, presented in a random permutation or a nearly-sorted completion order, through plot.New/Add/Close/WriteTo with "
+         "threshold 0 and with a threshold in {0,1,2,3,5,10,50,4000}; the data block and labels of the written HTML are parsed back; one "
+         "case in 12 has a timestamp going back (outside the property, compared with the model only); non-trivial = plot cases and LTTB cases with 3 <= threshold < count",
+    exhaustive="the LTTB grid only: all (count, threshold) with count <= 40, threshold <= 42 (quick) / count <= 66, threshold <= 68 (thorough)",
+    clauses={1: "adding results in this order failed", 2: "the plotted points are not exactly one per result at x = ms since the attack's first request, y = latency, in the right OK/ERROR series",
+             3: "rows of a series are not sorted by x", 4: "downsampled series is not an identity / threshold-sized subsequence containing the first and last points", 5: "downsampling failed although no series is longer than a threshold of 1 or 2",
+             10: "series at or below the threshold (or threshold 0) changed", 11: "threshold 1 or 2 with a longer series not rejected", 12: "downsampling failed or panicked", 13: "not exactly threshold points",
+             14: "not a subsequence of the input", 15: "first or last point missing"},
+    diffs={30: "model and implementation disagree on whether adding fails", 31: "series differ from the model's", 40: "LTTB output or requested chunk sizes differ from the model with exact rational bucket bounds"},
+    assumptions=["go-tsz compression is assumed lossless (sampled)", "bucket bounds are modelled with exact rationals; the code computes them in float64: a differing chunk size with a correct output structure is a declared don't-care",
+                 "x is compared in whole milliseconds and y in whole nanoseconds after rounding the plotted floats"],
+    level_text="plot_one_point_each is proved in Coq for every result set in the property's domain and EVERY permutation of arrival (invariant of the re-ordering buffer, unbounded); rows_sorted, lttb_identity, lttb_rejects_1_2, lttb_structure (any selection oracle) and lttb_buckets_exact are proved for all counts and thresholds with exact rational bucket bounds. Tie: differential runs through the exported plot API (HTML data block parsed back) and lttb.Downsample with a recording iterator.",
+    technique="Coq invariant proof of the re-ordering buffer over all permutations; structural LTTB proof; differential correspondence",
+    timeout={"quick": 600, "thorough": 3000})
